@@ -1186,7 +1186,7 @@ func (se *stanzaEncoder) EncodeToken(t xml.Token) error {
 	case xml.StartElement:
 		se.depth++
 		// Add required attributes if missing:
-		if se.depth == 1 && isStanzaEmptySpace(tok.Name) {
+		if se.depth == 1 && (isStanzaEmptySpace(tok.Name) || (se.ns != "" && stanza.Is(tok.Name, se.ns))) {
 			if tok.Name.Space == "" {
 				tok.Name.Space = se.ns
 			}
